@@ -105,34 +105,55 @@ Definition type_expr (b : tB) (e : expr) : ty + eB :=
   | EDivZero a => type_atom b a
   end.
 
-Definition check1 (b : tB) (s : tstmt) : tB * option eB :=
+(* the readable type InterpreterResult::to_markup shows next to a value: only for
+   an expression statement, and not for scalars *)
+Definition upper_first (s : string) : string :=
+  match s with
+  | EmptyString => s
+  | String ch r =>
+      let n := nat_of_ascii ch in
+      String (if andb (Nat.leb 97 n) (Nat.leb n 122) then ascii_of_nat (n - 32) else ch) r
+  end.
+Definition show_ty (t : ty) : string :=
+  match t with TyScalar => "Scalar" | TyDim u => upper_first u end.
+Definition shown_type (s : tstmt) (t : ty) : string :=
+  match s, t with
+  | TExpr _, TyDim u => upper_first u
+  | _, _ => "-"
+  end.
+
+(* a typed statement: the statement and the type shown for it *)
+Definition tstmt_typed := (tstmt * string)%type.
+
+(* TypeChecker::check_statement *)
+Definition check1 (b : tB) (s : tstmt) : tB * (tstmt_typed + eB) :=
   match s with
   | TLet x e =>
       match type_expr b e with
-      | inr err => (b, Some err)
-      | inl t => (mkB ((x, t) :: var_types b) (units b), None)
+      | inr err => (b, inr err)
+      | inl t => (mkB ((x, t) :: var_types b) (units b), inl (s, "-"))
       end
-  | TUnit u => (mkB (var_types b) (units b ++ [u]), None)
+  | TUnit u => (mkB (var_types b) (units b ++ [u]), inl (s, "-"))
   | TExpr e | TPrint e =>
-      match type_expr b e with inr err => (b, Some err) | inl _ => (b, None) end
+      match type_expr b e with
+      | inr err => (b, inr err)
+      | inl t => (b, inl (s, shown_type s t))
+      end
   end.
 
-Fixpoint check_all (b : tB) (l : list tstmt) : tB * option eB :=
+(* TypeChecker::check: a fold over the statements, stopping at the first error
+   (the definitions made before it stay in the — dirty — type checker) *)
+Definition typed := list tstmt_typed.
+Fixpoint check (b : tB) (l : list tstmt) : tB * (typed + eB) :=
   match l with
-  | [] => (b, None)
+  | [] => (b, inl [])
   | s :: r => match check1 b s with
-              | (b1, None) => check_all b1 r
-              | (b1, Some e) => (b1, Some e)
+              | (b1, inr e) => (b1, inr e)
+              | (b1, inl ts) => match check b1 r with
+                                | (b2, inl tr) => (b2, inl (ts :: tr))
+                                | (b2, inr e) => (b2, inr e)
+                                end
               end
-  end.
-
-(* typed statements: the statements, plus the readable type of the last one
-   when it is an expression (what InterpreterResult::to_markup shows) *)
-Definition typed := (list tstmt * tB)%type.
-Definition check (b : tB) (l : list tstmt) : tB * (typed + eB) :=
-  match check_all b l with
-  | (b1, None) => (b1, inl (l, b1))
-  | (b1, Some e) => (b1, inr e)
   end.
 
 (* ---- C: the VM (globals) ---- *)
@@ -188,33 +209,28 @@ Fixpoint run_all (c : tC) (l : list tstmt) (last : option value) (prints : list 
       end
   end.
 
-(* the readable type shown next to the value: only when the LAST statement is
-   an expression, and not for scalars *)
-Definition upper_first (s : string) : string :=
-  match s with
-  | EmptyString => s
-  | String ch r =>
-      let n := nat_of_ascii ch in
-      String (if andb (Nat.leb 97 n) (Nat.leb n 122) then ascii_of_nat (n - 32) else ch) r
-  end.
-Definition show_ty (t : ty) : string :=
-  match t with TyScalar => "Scalar" | TyDim u => upper_first u end.
-Definition last_type (b : tB) (l : list tstmt) : string :=
-  match last l (TUnit "") with
-  | TExpr e => match type_expr b e with
-               | inl (TyDim u) => upper_first u
-               | _ => "-"
-               end
-  | _ => "-"
+(* the type shown with the result is the one of the LAST statement (None for an
+   empty statement list, e.g. an input that only re-imports modules) *)
+Definition last_shown (t : typed) : option string :=
+  match t with
+  | [] => None
+  | _ => Some (snd (last t (TUnit "", "-")))
   end.
 
-Definition result := (option value * string)%type.   (* value, shown type *)
+Definition result := (option value * option string)%type.   (* last value, shown type *)
+
+(* BytecodeInterpreter::interpret_statements + Vm::run *)
 Definition run (c : tC) (a : tA) (b : tB) (t : typed) : tC * (result + eC) * list string :=
-  let '(c1, r, prints) := run_all c (fst t) None [] in
+  let '(c1, r, prints) := run_all c (map fst t) None [] in
   (c1, match r with
-       | inl v => inl (v, last_type (snd t) (fst t))
+       | inl v => inl (v, last_shown t)
        | inr e => inr e
        end, prints).
+
+(* result of a joined input from the results of its two halves (C07) *)
+Definition vmerge (r1 r2 : result) : result :=
+  (match fst r2 with Some v => Some v | None => fst r1 end,
+   match snd r2 with Some t => Some t | None => snd r1 end).
 
 (* ---- the instance ---- *)
 Definition table := list (string * code).
@@ -237,7 +253,7 @@ Definition show_outcome (o : outcome string eA eB eC result string) : string :=
   match o with
   | Done _ _ _ _ _ _ (v, t) prints =>
       "ok|" ++ match v with Some v => show_value v | None => "-" end ++ "|"
-            ++ match v with Some _ => t | None => "-" end ++ "|" ++ join rs prints
+            ++ match v, t with Some _, Some t => t | _, _ => "-" end ++ "|" ++ join rs prints
   | Fail _ _ _ _ _ _ f prints =>
       "err|" ++ match f with
                 | FResolver _ _ _ _ (UnknownModule m) => "resolver:UnknownModule(" ++ m ++ ")"
